@@ -331,6 +331,13 @@ impl CtcDecoder {
                         next_prob_blank[[bi, label]],
                         next_prob_no_blank[[bi, label]],
                     ]);
+                    // Skip extensions with zero probability. Besides labels that
+                    // cannot occur, these are the slots whose probability mass was
+                    // redirected to another beam state via `merges`; selecting one
+                    // would add a second state with the same prefix.
+                    if prob_sum == f32::NEG_INFINITY {
+                        continue;
+                    }
                     if topk_extensions.len() < beam_size.as_usize()
                         || prob_sum
                             > topk_extensions
@@ -351,6 +358,16 @@ impl CtcDecoder {
                         topk_extensions.truncate(beam_size.as_usize());
                     }
                 }
+            }
+
+            // If every extension has zero probability (the input is not a
+            // distribution), keep one state so that the beam is never empty.
+            if topk_extensions.is_empty() {
+                topk_extensions.push(BeamExtension {
+                    index: 0,
+                    label: None,
+                    prob: f32::NEG_INFINITY,
+                });
             }
 
             beam = topk_extensions
